@@ -33,6 +33,8 @@ func runC07(c *Ctx) {
 	checkLineReaders(c)
 	c.Rule("R07j", ruleTextMultilineGuard, 1)
 	checkMultilineGuard(c, "R07j")
+	c.Rule("R07l", ruleTextNativeOnly, 1)
+	checkNativeOnly(c, "R07l")
 	c.Rule("R07k", ruleTextEnumValuesEscaped, 3)
 	checkEnumValuesEscaped(c, "R07k")
 	c.Rule("R07i", ruleTextDelimTables, 1)
